@@ -97,7 +97,9 @@ def fresh(sd=0):
     BE = pd.DataFrame({'id': pd.Series([], dtype=object), 's': pd.Series([], dtype=object)})   # no rows
     # candidate set whose key columns have another dtype than the tables' keys (float after a merge / CSV)
     CF = pd.DataFrame({'_id': [0, 1, 2], 'l_id': [1.0, 2.0, 3.0], 'r_id': [7.0, 9.0, 9.0]})
-    return dict(A=A, B=B, A2=A2, B2=B2, C=C, C2=C2, S=S, BN=BN, BM=BM, BE=BE, CF=CF,
+    DN = pd.DataFrame({'id': [1, 2], 'm': [np.nan, np.nan], 'z': pd.Series([], dtype='float64').reindex([0, 1])})
+    DE = pd.DataFrame({'id': pd.Series([], dtype='int64'), 'm': pd.Series([], dtype='float64')})
+    return dict(A=A, B=B, A2=A2, B2=B2, C=C, C2=C2, S=S, BN=BN, BM=BM, BE=BE, CF=CF, DN=DN, DE=DE,
                 ws_set=WhitespaceTokenizer(return_set=True), ws_bag=WhitespaceTokenizer(return_set=False),
                 qg3_set=QgramTokenizer(qval=3, return_set=True), qg2_bag=QgramTokenizer(qval=2, return_set=False))
 
@@ -107,7 +109,7 @@ def tok_fp(t):
 
 
 def state(O):
-    return (tuple((k, frame_fingerprint(O[k])) for k in ('A', 'B', 'A2', 'B2', 'C', 'C2', 'S', 'BN', 'BM', 'BE', 'CF')),
+    return (tuple((k, frame_fingerprint(O[k])) for k in ('A', 'B', 'A2', 'B2', 'C', 'C2', 'S', 'BN', 'BM', 'BE', 'CF', 'DN', 'DE')),
             tuple((k, tok_fp(O[k])) for k in TOKS),
             tuple(tok_fp(t) for t in default_tokenizers()),
             lib_globals_fingerprint())
@@ -200,6 +202,14 @@ def build_alphabet(reduced=False):
                     add('%s_join(%s,A,%s,allow_missing)' % (jn, tn, bn),
                         (lambda fn, tn, bn: lambda O: fn()(O['A'], O[bn], 'id', 'id', 's', 's', O[tn], 0.9,
                                                            allow_missing=True, n_jobs=2, show_progress=False))(fn, tn, bn))
+                for jn, fn in J.items():
+                    if bn != 'BN':       # and with allow_missing=False: nothing left to join after dropping missing rows
+                        add('%s_join(%s,A,%s)' % (jn, tn, bn),
+                            (lambda fn, tn, bn: lambda O: fn()(O['A'], O[bn], 'id', 'id', 's', 's', O[tn], 0.9,
+                                                               show_progress=False))(fn, tn, bn))
+                        add('%s_join(%s,%s,B)' % (jn, tn, bn),
+                            (lambda fn, tn, bn: lambda O: fn()(O[bn], O['B'], 'id', 'id', 's', 's', O[tn], 0.9,
+                                                               n_jobs=2, show_progress=False))(fn, tn, bn))
                 add('overlap_join(%s,A,%s,allow_missing)' % (tn, bn),
                     (lambda tn, bn: lambda O: ssj.overlap_join(O['A'], O[bn], 'id', 'id', 's', 's', O[tn], 3,
                                                                allow_missing=True, show_progress=False))(tn, bn))
@@ -278,6 +288,12 @@ def build_alphabet(reduced=False):
     add('dataframe_column_to_str(A,n)', lambda O: ssj.dataframe_column_to_str(O['A'], 'n'))
     add('dataframe_column_to_str(A,n,return_col)', lambda O: ssj.dataframe_column_to_str(O['A'], 'n', return_col=True))
     add('series_to_str(S)', lambda O: ssj.series_to_str(O['S']))
+    if not reduced:       # degenerate columns: nothing to convert
+        add('dataframe_column_to_str(DN,all-NaN column)', lambda O: ssj.dataframe_column_to_str(O['DN'], 'm'))
+        add('dataframe_column_to_str(DN,all-NaN column,return_col)',
+            lambda O: ssj.dataframe_column_to_str(O['DN'], 'z', return_col=True))
+        add('dataframe_column_to_str(DE,empty table)', lambda O: ssj.dataframe_column_to_str(O['DE'], 'm'))
+        add('series_to_str(all-NaN series)', lambda O: ssj.series_to_str(O['DN']['m']))
     return CALLS
 
 
@@ -365,6 +381,17 @@ def w_bfs(job):
                        'second_state_reached_by': list(seen.values())[1] if len(seen) > 1 else None}}
 
 
+def probe_call(name):
+    """Calls whose result is sensitive to anything an earlier call could leave behind (tokenizer mode, token
+    order state, modified tables): used as second call of the quick tier's depth-2 histories."""
+    if any(k in name for k in ('filter_tables', 'filter_pair', 'filter_candset', 'apply_matcher(', 'order-sensitive',
+                               'profile_table', 'column_to_str', 'series_to_str')):
+        return 'rejected' not in name
+    return name in ('jaccard_join(ws_bag,n_jobs=1)', 'cosine_join(ws_set,n_jobs=2)', 'overlap_join(ws_bag)',
+                    'edit_distance_join(default tokenizer)', 'edit_distance_join(qg3_set)', 'jaccard_join(A2,B2,ws_bag)',
+                    'edit_distance_join(default tokenizer,A2,B2,n_jobs=2)', 'ovc_join(qg2_bag,n_jobs=1)')
+
+
 def w_hist(job):
     """Un-deduplicated histories prefix + [b] for every b: result of the last call == isolated."""
     sched.install()
@@ -372,18 +399,19 @@ def w_hist(job):
     reduced = job.get('reduced', False)
     pristine()
     names = list(alphabet(reduced))
+    second = [n for n in names if probe_call(n)] if job.get('probes_only') else names
     viol = []
     nv = calls = 0
     for prefix in job['prefixes']:
-        for b in names:
+        for b in second:
             O = fresh(sd)
             for h in prefix:
                 do(O, h, reduced)
             _, _, bad = check_step(tuple(prefix), b, O, sd, viol, reduced)
             calls += len(prefix) + 1
             nv += bad
-    return {'cases': len(job['prefixes']) * len(names), 'calls': calls,
-            'nontrivial': len(job['prefixes']) * len(names), 'outcomes': {'histories': 1, 'agree': 1},
+    return {'cases': len(job['prefixes']) * len(second), 'calls': calls,
+            'nontrivial': len(job['prefixes']) * len(second), 'outcomes': {'histories': 1, 'agree': 1},
             'extra': {'violations': nv}, 'viol': viol,
             'sample': {'history': list(job['prefixes'][0]) + [names[0]]}}
 
@@ -398,11 +426,14 @@ def layers(tier):
                 '{pair,tables,candset}, matcher, profiler, converters, rejected calls), states de-duplicated by '
                 'fingerprint of inputs + tokenizer configurations + default tokenizer + library module globals'
                 % len(names), min_nontrivial=len(names), in_main=False)]
-    jobs = [{'prefixes': [[a]], 'seed': sd} for a in names]
+    nprobe = len([n for n in names if probe_call(n)])
+    jobs = [{'prefixes': [[a]], 'seed': sd, 'probes_only': quick} for a in names]
     Ls.append(Layer('depth2', 'checks.c12:w_hist', jobs,
-                    'all %d x %d histories of two calls without de-duplication: the second call\'s result must '
-                    'equal the same call in isolation, inputs untouched, tokenizer restored' % (len(names), len(names)),
-                    min_nontrivial=len(names) ** 2, chunksize=1))
+                    'all %d x %d histories of two calls without de-duplication (quick: every first call x the %d '
+                    'state-sensitive second calls - filters, matcher, converters, profiler and one join per kind; '
+                    'thorough: the full square): the second call\'s result must equal the same call in isolation, '
+                    'inputs untouched, tokenizer restored' % (len(names), len(names), nprobe),
+                    min_nontrivial=len(names) * (nprobe if quick else len(names)), chunksize=1))
     if not quick:
         rn = list(alphabet(True))
         jobs = [{'prefixes': [[a, b] for b in rn], 'seed': sd, 'reduced': True} for a in rn]
